@@ -2,6 +2,7 @@ package main
 
 import (
 	"bytes"
+	"encoding/binary"
 	"encoding/json"
 	"fmt"
 	"math"
@@ -1747,6 +1748,24 @@ func suiteConc(seed uint64, tier string) *Report {
 		rep.Violations = append(rep.Violations, viols...)
 	}
 	{
+		n, viols := stableGetVsSet()
+		rep.Ops += n
+		rep.Dist["stable-get-vs-set"] = n
+		rep.Cases += 10
+		rep.Violations = append(rep.Violations, viols...)
+	}
+	{
+		truncs := 600
+		if tier == "thorough" {
+			truncs = 20000
+		}
+		n, viols := refHammer(seed, truncs)
+		rep.Ops += n
+		rep.Dist["refhammer-ops"] = n
+		rep.Cases++
+		rep.Violations = append(rep.Violations, viols...)
+	}
+	{
 		iters := 400
 		if tier == "thorough" {
 			iters = 6000
@@ -1775,6 +1794,238 @@ func suiteConc(seed uint64, tier string) *Report {
 	}
 	sort.Strings(keys)
 	return rep
+}
+
+// stableGetVsSet: forced interleaving on one key (C08): a Get is held after the meta store has produced the value and
+// before Get returns; a Set of the same key (to a new value, to nil, a SetUint64) then runs to completion; the held
+// Get returns the old or the new value, and every Get that STARTS after the Set returned sees the new one — now, after
+// log activity, and after Close/Open.
+func stableGetVsSet() (calls int, viols []Violation) {
+	add := func(what, detail string, ops ...string) {
+		viols = append(viols, Violation{Property: "C08", What: what, Case: "stable-get-vs-set", Detail: detail, Ops: ops})
+	}
+	type step struct {
+		name     string
+		old, new []byte // nil = absent
+		u64      bool
+	}
+	u := func(v uint64) []byte { b := make([]byte, 8); binary.LittleEndian.PutUint64(b, v); return b }
+	steps := []step{
+		{"bytes: value replaced", []byte("node-a"), []byte("node-b"), false},
+		{"bytes: value cleared with Set(key, nil)", []byte("node-a"), nil, false},
+		{"bytes: first value of an absent key", nil, []byte("node-c"), false},
+		{"uint64: value replaced", u(1), u(2), true},
+		{"uint64: first value of an absent key", nil, u(7), true},
+	}
+	for si, st := range steps {
+		for _, warm := range []bool{false, true} {
+			d := simfs.New()
+			d.Record = false
+			w, err := openWalOn(d, 4096, nil)
+			if err != nil {
+				return calls, viols
+			}
+			key := []byte(fmt.Sprintf("k-%d", si))
+			ops := []string{fmt.Sprintf("%s (key read before in this process: %v)", st.name, warm)}
+			if st.old != nil {
+				if err := w.Set(key, st.old); err != nil {
+					add("Set failed", err.Error(), ops...)
+				}
+			}
+			get := func() (string, error) {
+				if st.u64 {
+					v, err := w.GetUint64(key)
+					return fmt.Sprint(v), err
+				}
+				v, err := w.Get(key)
+				return string(v), err
+			}
+			want := func(b []byte) string {
+				if st.u64 {
+					if b == nil {
+						return "0"
+					}
+					return fmt.Sprint(binary.LittleEndian.Uint64(b))
+				}
+				return string(b)
+			}
+			if warm {
+				get()
+			}
+			parked, resume := make(chan struct{}), make(chan struct{})
+			var once sync.Once
+			d.SetAfterGetStable(func(k []byte) {
+				if string(k) == string(key) {
+					once.Do(func() { close(parked); <-resume })
+				}
+			})
+			held := goCall(func() string { v, err := get(); return fmt.Sprintf("%s err=%v", v, err) })
+			select {
+			case <-parked:
+			case <-time.After(concTimeout):
+				// nothing reached the meta store (a cache answered): not held, nothing to interleave
+			}
+			d.SetAfterGetStable(nil)
+			var serr error
+			if st.u64 {
+				serr = w.SetUint64(key, binary.LittleEndian.Uint64(st.new))
+			} else {
+				serr = w.Set(key, st.new)
+			}
+			select {
+			case <-resume:
+			default:
+				close(resume)
+			}
+			hres := held.wait(concTimeout)
+			calls += 3
+			if serr != nil {
+				add("Set failed while a Get of the same key was in progress", serr.Error(), ops...)
+			}
+			if hres != want(st.old)+" err=<nil>" && hres != want(st.new)+" err=<nil>" {
+				add("a Get racing with a Set of its key returned neither the old nor the new value", fmt.Sprintf("got %q, old %q, new %q", hres, want(st.old), want(st.new)), ops...)
+			}
+			check := func(when string) {
+				got, err := get()
+				calls++
+				if err != nil || got != want(st.new) {
+					add("Get does not return the value of the latest Set that returned nil", fmt.Sprintf("%s: want %q, got %q err=%v (the Set ran while an earlier Get of the key was between reading the meta store and returning)", when, want(st.new), got, err), ops...)
+				}
+			}
+			check("right after the Set returned")
+			w.StoreLogs([]*raft.Log{{Index: 1, Term: 1, Data: []byte("x")}})
+			check("after an append")
+			w.Close()
+			if w, err = openWalOn(d, 4096, nil); err != nil {
+				add("reopen failed", err.Error(), ops...)
+				break
+			}
+			check("after Close/Open")
+			w.Close()
+			if len(viols) > 0 {
+				return calls, viols
+			}
+		}
+	}
+	return calls, viols
+}
+
+// refHammer: index-only readers (FirstIndex / LastIndex: nothing but the closed check, the state reference and two
+// loads — the shortest window there is around taking and dropping a reference) spin on every core while one writer
+// rotates a one-entry-per-segment log and truncates its head segment by segment. Every reference taken on a state must
+// be dropped through release(): when readers and writer are done, the files of all deleted segments are gone (C13),
+// and no read may have failed or gone backwards (C06).
+func refHammer(seed uint64, truncs int) (ops int, viols []Violation) {
+	d := simfs.New()
+	d.Record = false
+	w, err := openWalOn(d, 1, nil) // every append fills its segment
+	if err != nil {
+		return 0, nil
+	}
+	readers := runtime.GOMAXPROCS(0) - 2
+	if readers < 2 {
+		readers = 2
+	}
+	if readers > 14 {
+		readers = 14
+	}
+	var stop int32
+	var nreads int64
+	var vmu sync.Mutex
+	addV := func(v Violation) {
+		vmu.Lock()
+		if len(viols) < 3 {
+			viols = append(viols, v)
+		}
+		vmu.Unlock()
+	}
+	var wg sync.WaitGroup
+	for r := 0; r < readers; r++ {
+		wg.Add(1)
+		go func(r int) {
+			defer wg.Done()
+			defer func() {
+				if x := recover(); x != nil {
+					addV(Violation{Property: "C06", What: "index read panicked under truncations", Case: "refhammer", Detail: fmt.Sprint(x)})
+				}
+			}()
+			var lastFirst uint64
+			for atomic.LoadInt32(&stop) == 0 {
+				var f uint64
+				var err error
+				if r%2 == 0 {
+					f, err = w.FirstIndex()
+					if err == nil && f != 0 {
+						if f < lastFirst {
+							addV(Violation{Property: "C06", What: "FirstIndex went backwards while the head was being truncated", Case: "refhammer", Detail: fmt.Sprintf("%d after %d", f, lastFirst)})
+						}
+						lastFirst = f
+					}
+				} else {
+					_, err = w.LastIndex()
+				}
+				if err != nil {
+					addV(Violation{Property: "C06", What: "index read failed under truncations", Case: "refhammer", Detail: err.Error()})
+					return
+				}
+				atomic.AddInt64(&nreads, 1)
+			}
+		}(r)
+	}
+	idx := uint64(1)
+	done := 0
+	for done < truncs {
+		for k := 0; k < 3; k++ {
+			if err := w.StoreLogs([]*raft.Log{{Index: idx, Term: 1, Data: []byte("h")}}); err != nil {
+				addV(Violation{Property: "C06", What: "append failed during the reference stress", Case: "refhammer", Detail: err.Error()})
+				done = truncs
+				break
+			}
+			idx++
+		}
+		first, _ := w.FirstIndex()
+		for k := 0; k < 2 && done < truncs; k++ {
+			if err := w.DeleteRange(0, first); err != nil {
+				addV(Violation{Property: "C06", What: "head truncation failed during the reference stress", Case: "refhammer", Detail: err.Error()})
+				done = truncs
+				break
+			}
+			first++
+			done++
+		}
+	}
+	atomic.StoreInt32(&stop, 1)
+	wg.Wait()
+	// readers are gone and the writer is idle: nothing references a replaced state any more
+	deadline := time.Now().Add(concTimeout)
+	for {
+		ps := d.MetaState()
+		live := map[string]bool{}
+		for _, si := range ps.Segments {
+			live[segmentName(si.BaseIndex, si.ID)] = true
+		}
+		var extra []string
+		for _, n := range d.FileNames() {
+			if !live[n] {
+				extra = append(extra, n)
+			}
+		}
+		if len(extra) == 0 {
+			break
+		}
+		if time.Now().After(deadline) {
+			sort.Strings(extra)
+			if len(extra) > 6 {
+				extra = append(extra[:6], fmt.Sprintf("… %d more", len(extra)-6))
+			}
+			addV(Violation{Property: "C13", What: "files of deleted segments are still in the directory after every reader and the writer finished (a reference on a replaced state was dropped without running its finalizer)",
+				Case: "refhammer", Ops: []string{fmt.Sprintf("refhammer seed=%d truncs=%d readers=%d", seed, truncs, readers)}, Detail: strings.Join(extra, " ")})
+			break
+		}
+		time.Sleep(time.Millisecond)
+	}
+	w.Close()
+	return int(atomic.LoadInt64(&nreads)) + done, viols
 }
 
 func init() { suites["conc"] = suiteConc }
